@@ -71,7 +71,7 @@ Proof.
   pose proof (cells_ok_little f sigs Hf Hin Hle) as Hok.
   pose proof (little_scan3 (visit_little (layout_idx f sigs)) 0 None) as L. cbn [option_map] in L. rewrite L.
   destruct (scan3 (visit_little (layout_idx f sigs)) 0 None) as [[[n0 n1] k]|] eqn:E; cbn [option_map fst snd].
-  - apply (scan_moves sigs (8 * f) _ n0 n1 k (fun st => st - (n1 - n0)) Hok Hin E). intros s _ Hs. lia.
+  - apply (scan_moves sigs (8 * f) _ n0 n1 k (fun st => st - (n1 - n0)) Hok Hin E). intros s _ Hs. cbv beta. clear - Hs. lia.
   - apply (scan_final sigs (8 * f) _ Hok E).
 Qed.
 
